@@ -12,9 +12,10 @@ GROUP = dict(
     extern_re=[r'ConcurrentVector<std::atomic<unsigned int>,\s*128>::(operator\[\]|ensure)', r'ConcurrentVector<babylon::DepositBox<babylon_vf::Item>::Slot,\s*0>::(operator\[\]|ensure)'],
     roots=[A + '::allocate', A + '::deallocate', BOX + '::take_released', BOX + '::emplace', BOX + '::finish_released'],
     reviewed_compiler_conditionals=[],
-    assumptions=['SC; RMW atomicity; the free-list head version does not wrap (2^32 pushes) between a pop reading the link and its CAS',
-                 'RELY clauses of the free list are the GUARs of allocate/deallocate of other threads (checked here for this thread; composition argued in DESIGN)',
-                 'ConcurrentVector cells are stable addresses (C04); deposit-box slot versions never decrease'],
+    assumptions=['SC; RMW atomicity; fewer than 2^32-1 pushes and fewer than 2^32-3 values (A-wrap: the head version / value counter do not wrap)',
+                 'RELY clauses of the free list are the GUARs of allocate/deallocate of other threads (asserted here for this thread; composition by reading, DESIGN 0.2)',
+                 'A-chain: the link of a listed value other than the focus value is TAIL or a listed value and never ACTIVE (whole-list shape; for the focus value these facts are asserted)',
+                 'ConcurrentVector cells are stable addresses and value-initialised (C04); a deposit id is shared only after emplace returned'],
     jobs=[
         dict(id='C14.allocate', enforce='IdAlloc_allocate', loops=True, backend='cadical'),
         dict(id='C14.deallocate', enforce='IdAlloc_deallocate', loops=True, backend='cadical'),
